@@ -174,6 +174,7 @@ def run(ctx):
                 trackers.append((b, ow))
     ctx.floor("R04.1", "sites releasing the waiting wakers", len(trackers), 1)
     tracker_bodies = {}
+    impl_flush = set()         # (tracker body, parameter) whose flush action is a trait method verified through its implementations
     virtual_release = {}      # body def -> call blocks of helpers that release the wakers
     for b, c in trackers:
         dom = b.dominators()
@@ -189,6 +190,15 @@ def run(ctx):
                     flushers.append((x, params[0]))
             elif always_reaches(F, b, is_stream_flush, 0) and is_stream_flush(x):
                 flushers.append((x, None))
+            elif x.args and x.trait and (x.trait or "").startswith(BG):
+                # the flush action as a method of a private one-purpose trait called on a parameter (`flusher.flush_stream()`): every
+                # implementation in the workspace flushes the stream on every path
+                src = Prov(b).operand(x.args[0])
+                params = [o[1] for o in src if o[0] == "arg" and not o[2]]
+                impls_ = [hb for hb in local_callee_bodies(F, x) if hb.crate == BG]
+                if params and impls_ and all(always_reaches(F, hb, is_stream_flush, depth=3) for hb in impls_):
+                    flushers.append((x, params[0]))
+                    impl_flush.add((b.def_, params[0]))
         good = [(x, p) for x, p in flushers if dominates(b, x.bb, c.bb, dom) and x.bb != c.bb]
         if not good and not flushers:
             # a helper that only releases: the flush must dominate every call of the helper (one level up)
@@ -235,7 +245,7 @@ def run(ctx):
                 cl = closure_for_operand(F, cs.body, cs.args[p - 1])
                 nbind += 1
                 key = fnkey(cs.body) + "#flush-closure-flushes"
-                ok = cl is not None and always_reaches(F, cl, is_stream_flush, depth=3)
+                ok = (cl is not None and always_reaches(F, cl, is_stream_flush, depth=3)) or (bdef, p) in impl_flush
                 ctx.check(ok, "R04.1", key, loc(cs.body, cs.bb),
                           "the flush action handed to the waker tracker does not flush the stream on every path",
                           "closure %s always reaches EntryIoStream::flush" % (cl.path if cl else "?"))
